@@ -5,5 +5,6 @@ CONSTANTS
   MaxExcluded = 0
   AllowMalformed = TRUE
   AsFound_SignedRelativeTest = FALSE
+  AsFound_NearZeroBandIgnoresDrift = FALSE
 POSTCONDITION AllConsumed
 CHECK_DEADLOCK FALSE
